@@ -5,6 +5,8 @@ parent is the state of a fresh process, so "result in isolation" is a fork that 
 
   * memo_search      function-level: f(y) after f(x) vs f(y) in isolation, arguments drawn from type-directed pools (TrueType
                      programs and all their one-byte variants, AES keys, paths, glyph-id lists) -- finds colliding cache keys;
+                     then with TRANSIENT arguments (transient_search: f(x), x dies, f(y) with y allocated at x's former address)
+                     -- finds keys built from object identity (id(arg)) by a memo that does not keep the object alive;
   * history_search   document-level: generated documents (EPUB / HTML incl. truncated ones, text, archives, corrupt inputs) and
                      small fixtures, every ordered pair against the isolated baseline, process-global state before / after;
   * serial_search    stored payloads deserialised after other (de)serialisation work vs in isolation;
